@@ -10,6 +10,7 @@ SRC = sys.argv[1]
 IDS = sys.argv[2:] or ["C%02d" % i for i in range(1, 21)]
 V = "/verif"
 WT = "/tmp/cf"
+OFFSET = int(os.environ.get("SEED_OFFSET", "0"))  # later rounds are stored as seeded/<id>/<n + offset>
 
 
 def sh(cmd, cwd=None, timeout=1800, env=None):
@@ -47,7 +48,7 @@ def demo_cmd(readme, wt, d):
 def one(job):
     pid, n = job
     src = os.path.join(SRC, "%s-out" % pid, str(n))
-    meta = {"property": pid, "seed": n, "source": "fresh sub-agent given only the property text and a scratch worktree"}
+    meta = {"property": pid, "seed": n + OFFSET, "round": 1 + OFFSET // 3, "source": "fresh sub-agent given only the property text and a scratch worktree"}
     if not os.path.exists(os.path.join(src, "patch.diff")):
         return pid, n, None
     wt = os.path.join(WT, "%s_%d" % (pid, n))
@@ -73,13 +74,23 @@ def one(job):
         m = re.search(r"(\d+)% tests passed, (\d+) tests failed out of (\d+)", out)
         meta["tests"] = m.group(0) if m else out[-200:]
         meta["tests_pass"] = rc == 0
+        if rc != 0:
+            meta["tests_failed"] = re.findall(r"^\s*\d+ - (\S+) \(", out, re.M)[:10]
         readme = open(os.path.join(src, "README.md")).read() if os.path.exists(os.path.join(src, "README.md")) else ""
         d = os.path.join(wt, "_seed")
         shutil.copytree(src, d)
         base = demo_cmd(readme, "@@", d)
         res = {}
+        base = re.sub(r"(?<![\w/])\d/demo\.c", "demo.c", base)
+        has_sh = os.path.exists(os.path.join(d, "demo.sh"))
         for tag, root in (("changed", wt), ("unchanged", "/repo")):
-            cmd = re.sub(r"/tmp/wt/%s(?=[/ ])" % pid, root, base).replace("@@", root).replace("${WT}", root).replace("$WT", root) + " -o demo_%s" % tag
+            if has_sh:
+                txt = re.sub(r"/tmp/wt2?/%s(?=[/ \n\"}])" % pid, root, open(os.path.join(d, "demo.sh")).read())
+                open(os.path.join(d, "demo_%s.sh" % tag), "w").write(txt)
+                rc2, o2 = sh("WT=%s sh ./demo_%s.sh" % (root, tag), cwd=d, timeout=600)
+                res[tag] = {"compile": True, "exit": rc2, "tail": o2[-500:], "via": "demo.sh"}
+                continue
+            cmd = re.sub(r"/tmp/wt2?/%s(?=[/ ])" % pid, root, base).replace("@@", root).replace("${WT}", root).replace("$WT", root) + " -o demo_%s" % tag
             rc1, o1 = sh(cmd, cwd=d, timeout=300)
             if rc1 != 0:
                 res[tag] = {"compile": False, "out": o1[-300:]}
@@ -99,7 +110,7 @@ def one(job):
         return pid, n, meta
     finally:
         # keep the artefacts, drop the worktree and its build
-        dst = os.path.join(V, "seeded", pid, str(n))
+        dst = os.path.join(V, "seeded", pid, str(n + OFFSET))
         os.makedirs(dst, exist_ok=True)
         for fn in os.listdir(src):
             if os.path.isfile(os.path.join(src, fn)) and os.path.getsize(os.path.join(src, fn)) < 400000:
@@ -110,7 +121,7 @@ def one(job):
 
 
 os.makedirs(WT, exist_ok=True)
-jobs = [(p, n) for p in IDS for n in (1, 2, 3)]
+jobs = [(p.split(":")[0], n) for p in IDS for n in (1, 2, 3) if ":" not in p or str(n) in p.split(":")[1]]
 with cf.ThreadPoolExecutor(max_workers=4) as ex:
     for pid, n, meta in ex.map(one, jobs):
         if meta is None:
